@@ -271,6 +271,8 @@ RCI_Obs(t) ==
     item  |-> bycol,                                                    \* rc['<column>']
     frame |-> Some([cols |-> t.cols, rows |-> t.rows]),                 \* to_dataframe()
     text  |-> Some([cols |-> t.cols, rows |-> t.rows]),                 \* to_text(), str()
+    csv   |-> Some([cols |-> t.cols, rows |-> t.rows]),                 \* to_csv(file), read back
+    file  |-> Some([cols |-> t.cols, rows |-> t.rows]),                 \* to_file(file), read back
     \* to_dataframe(columns=<reversed list>) selects and orders columns
     rframe |-> Some([cols |-> Reverse(t.cols), rows |-> [n \in 1..nr |-> Reverse(t.rows[n])]]) ]
 RCI_Compact(t) == [c |-> t.cols, r |-> t.rows]
@@ -323,7 +325,7 @@ RCM_Obs(m) ==
   [ size  |-> RCM_Size(m),
     shape |-> <<nc, RCM_Size(m)>>,
     dict  |-> bycol, attr |-> bycol, item |-> bycol,
-    frame |-> fr, text |-> fr,
+    frame |-> fr, text |-> fr, csv |-> fr, file |-> fr,
     rframe |-> IF RCM_Ragged(m) THEN None
                ELSE Some([cols |-> Reverse(m.columns), rows |-> [n \in 1..RCM_Size(m) |-> Reverse(RCM_Rows(m)[n])]]) ]
 RCM_Compact(m) == [c |-> m.columns, d |-> m.col]
